@@ -4243,7 +4243,12 @@ class Parameters:
             posargs = spec.args[:-len(spec.defaults)]
             kwargs = dict(zip(spec.args[-len(spec.defaults):], spec.defaults))
         else:
-            posargs, kwargs = args, []
+            posargs, kwargs = args, {}
+        # Keyword-only arguments of the constructor that are parameters,
+        # with or without default
+        kwonly = [k for k in spec.kwonlyargs if k in values]
+        kwargs.update({k: v for k, v in (spec.kwonlydefaults or {}).items() if k in kwonly})
+        args = args + kwonly
 
         parameters = self.param.objects('existing')
         ordering = sorted(
@@ -4280,7 +4285,7 @@ class Parameters:
             if k in posargs:
                 # value will be unknown_value unless k is a parameter
                 arglist.append(value)
-            elif (k in kwargs or
+            elif (k in kwargs or k in kwonly or
                   (hasattr(spec, 'varkw') and (spec.varkw is not None)) or
                   (hasattr(spec, 'keywords') and (spec.keywords is not None))):
                 # Explicit modified keywords or parameters in
